@@ -47,7 +47,7 @@ EXC_TABLE = {
 }
 
 # argument shapes an exception may be constructed with
-ARG_SHAPES = ('msg', 'none', 'int', 'two', 'braces')
+ARG_SHAPES = ('msg', 'none', 'int', 'two', 'braces', 'percent', 'unicode', 'long', 'exc', 'chained')
 
 
 def make_exc(fault):
@@ -67,6 +67,16 @@ def make_exc(fault):
         args = ('injected', 'failure')
     elif shape == 'braces':
         args = ('injected {failure} {0} %s',)
+    elif shape == 'percent':
+        args = ('100% injected %s %d %(name)s',)
+    elif shape == 'unicode':
+        args = ('injecté \u2028 \U0001f600 \x00 end',)
+    elif shape == 'long':
+        args = ('injected ' + 'x' * 20000,)
+    elif shape == 'exc':
+        args = (ValueError('inner failure'),)       # wraps a caught exception
+    elif shape == 'chained':
+        args = ('injected failure',)
     else:
         raise ValueError(shape)
     if name == 'SeasoningError':
@@ -75,7 +85,11 @@ def make_exc(fault):
     if name == 'RecognitionError':
         import yatiml
         return yatiml.RecognitionError(*args)
-    return EXC_TABLE[name](*args)
+    exc = EXC_TABLE[name](*args)
+    if shape == 'chained':
+        exc.__cause__ = KeyError('root cause')
+        exc.__context__ = exc.__cause__
+    return exc
 
 
 class OpContext:
